@@ -73,6 +73,40 @@ QUICK_3D = [((4, 4, 2048), 1), ((4, 4, 1024), 2), ((4, 4, 512), 4), ((4, 4, 256)
 QUICK_2D = [((1, 16, 256), 8), ((1, 4, 1024), 8), ((1, 64, 64), 8), ((1, 16, 2048), 1), ((1, 256, 4), 32)]
 
 
+def thorough_layouts_3d():
+    """~45 layouts: every bit rate x {4x4xN, 4x8xN, 8x4xN, 8x8xN, 16x16xN, 32x32xN, NxNx4} where valid."""
+    out = []
+    allv = valid_layouts_3d()
+    for rate in (0.25, 0.5, 1, 2, 4, 8, 16, 32):
+        for a, b in ((4, 4), (4, 8), (8, 4), (8, 8), (16, 16), (32, 32)):
+            c = [l for l in allv if l[1] == rate and l[0][0] == a and l[0][1] == b]
+            if c:
+                out.append(c[0])
+        c = [l for l in allv if l[1] == rate and l[0][2] == 4 and l[0][0] == l[0][1]]
+        if c:
+            out.append(c[0])
+    seen, res = set(), []
+    for l in out + QUICK_3D:
+        if (l[0], l[1]) not in seen:
+            seen.add((l[0], l[1]))
+            res.append(l)
+    return res
+
+
+def thorough_layouts_2d():
+    out = []
+    allv = valid_layouts_2d()
+    for rate in (1, 2, 4, 8, 16, 32):
+        for b in (4, 16, 64, 256):
+            c = [l for l in allv if l[1] == rate and l[0][1] == b]
+            if c:
+                out.append(c[0])
+    return out
+
+
+THOROUGH_SCALE = 2.5      # per-item time budget of the thorough tier relative to the quick tier
+
+
 # symbolic conforming SGZ file ----------------------------------------------------------------------
 class SgzTruth:
     """Ground truth of a symbolic SGZ file that conforms to docs/file-specification.md."""
